@@ -69,6 +69,25 @@ CHECKS = {
         "Trusted: numpy SVD, reference symbols (mc/ref.py). Bounds on N (matrix sizes up to 125x125 in 3D) and the L/dt/coefficient lattices.",
         "DESIGN.md §4 C11",
     ),
+    "C12": (
+        "bounded exhaustive exploration: product of forcing parameters x orders x dt with BFS chains from rest, lock-step with the laminar-solution model; option product for ForcedStepper",
+        "The three Kolmogorov-type steppers are started from rest for every (L incl. L != 2pi, odd/even N, injection mode, scale, viscosity/drag, "
+        "order 1-4, dt) of a lattice (full product in thorough, deterministically thinned in quick) and stepped 1..4 times; every visited state is "
+        "compared with the laminar solution f(e^{sigma t}-1)/sigma of the documented equation and decomposed (own FFT) into channel, direction, "
+        "wavenumber, amplitude and phase, each with its own signature. ETDRK integrates the constant forcing exactly, so equality is to rounding. "
+        "ForcedStepper is compared with base(u+dt f) for 8 base steppers x states x forcings x 3 entry points.",
+        "Trusted: the closed-form laminar solution. Runs whose accumulated shear*time exceeds 4 are skipped as ill-conditioned (inviscid shear amplifies rounding noise).",
+        "DESIGN.md §4 C12",
+    ),
+    "C13": (
+        "bounded exhaustive exploration of interface pairs/triples x D x N x orders x flags x rescalings; differential comparison of the real code under an independently written argument conversion",
+        "All (specific, generic) pairs of the stepper overview, the (general, normalized, difficulty) triples of all five generic families and three "
+        "rescalings that keep the non-dimensional groups fixed are stepped on the same states for D=1..3, odd/even N, orders 0-4 and all flag "
+        "combinations; the argument conversions (a_j dt/L^j, N^j 2^(j-1) D, M N D, ...) are re-implemented in the harness. The pure-Python "
+        "conversion functions are checked against the formulas and as mutual inverses on a lattice of tuples.",
+        "Trusted: the documented conversion formulas as re-implemented in mc/props/C13.py. a0 is divided by D (documented axis sum); SwiftHohenberg in 1D only.",
+        "DESIGN.md §4 C13",
+    ),
     "C14": (
         "bounded exhaustive exploration of the option product, lock-step with a plain-loop reference model",
         "Every (n, include_init, takes_aux, constant_aux, pytree shape, aux shape) combination up to the bound, every window (T, sub_len), "
